@@ -12,6 +12,7 @@ ASSUMPTIONS = [
     "durations: integers >= 0 when no filter is installed, >= 1 when a filter (composition) is installed, as the property states",
     "histories dispatch any *ready* operation (not only the filtered ones) on any eligible machine",
     "probe sub-spaces call min_start_time/earliest_start_time on the last ready operation before every reading of the clock",
+    "'second' sub-spaces: the clock properties in an episode that follows an earlier episode of every length and a reset()",
     "completed sets are read from completed_operations() and compared by operation id",
 ]
 STUBS = ["max", "min", "int (dispatcher module only)"]
@@ -41,6 +42,8 @@ def subspaces(tier):
     out += C.structure_subspaces(s4, 2, False, filter="none")
     out += C.structure_subspaces(s3, 2, True, only_flexible=True, filter="none")
     out += C.structure_subspaces(s3 + [(2, 2), (2, 1, 1)], 2, False, filter="none", probe=True)
+    out += C.structure_subspaces(s3 + [(2, 2)], 2, False, canonical=True, filter="none", second=True)
+    out += C.structure_subspaces(s3, 2, False, canonical=True, filter=["dominated_operations", "non_idle_machines"], second=True)
     for f in BUILTIN:
         out += C.structure_subspaces(s4, 2, False, filter=[f])
         out += C.structure_subspaces(s3, 2, True, only_flexible=True, filter=[f])
@@ -58,7 +61,8 @@ def subspaces(tier):
 
 
 def cost(sp):
-    return C.cost(dict(sp, filter="x" if sp["filter"] != "none" else "none"))
+    c = C.cost(dict(sp, filter="x" if sp["filter"] != "none" else "none"))
+    return c * (c if sp.get("second") else 1)
 
 
 def harness(eng, sp):
@@ -89,6 +93,17 @@ def harness(eng, sp):
             eng.fail(f"C06/{tag}/exception-in-query", f"{type(ex).__name__}: {ex}")
             return None, None
 
+    if sp.get("second"):
+        s0 = Spec(desc)
+        for _ in range(1 + eng.choice(desc.n_ops, "first-episode-length")):
+            disp.current_time()
+            disp.completed_operations()
+            op, m = D.choose_dispatch(eng, desc, s0)
+            disp.dispatch(D.op_by_id(inst, op), m)
+            s0.apply(op, m)
+        disp.current_time()
+        disp.reset()
+        tag += "/second-episode"
     now, comp = read()
     if now is None:
         return
